@@ -356,6 +356,8 @@ def make_backend_class(i, outcome, with_providers=False):
         root_directory = Ref.directory(uri=f"{scheme}:root", name=f"root{i}")
 
         def browse(self, uri):
+            if uri.endswith(":slow"):  # keeps the calling core thread busy until the harness says so
+                SLOW_RELEASE.wait(20)
             return [Ref.track(uri=f"{scheme}:t{k}", name=f"t{k}") for k in range(3)]
 
         def lookup(self, uri):
@@ -426,6 +428,7 @@ def make_backend_class(i, outcome, with_providers=False):
 
 
 EVENTS_SEEN = []
+SLOW_RELEASE = threading.Event()
 
 
 def make_frontend_class(i, outcome, consume=False):
@@ -711,6 +714,8 @@ def run_waitfor_case(case, wd):
         time.sleep(0.001)
         r = orig_atf(self)
         atf["done_flags"].append(True)
+        if atf.get("hook"):
+            atf["hook"]()
         return r
 
     wd.arm({"waitfor": case}, case.get("deadline", 60))
@@ -849,6 +854,45 @@ def run_waitfor_case(case, wd):
             ft.join()
             result["foreign_calls"] = atf["calls"] - n1
             result["foreign_done_when_returned"] = box.get("done_when_returned")
+            # (c) the same with the core thread busy: the caller must stay blocked until the core
+            #     has got round to the callback, however long that takes
+            SLOW_RELEASE.clear()
+            order = []
+            d2 = len(atf["done_flags"])
+            orig_wrapper_hook = atf.get("hook")
+            atf["hook"] = lambda: order.append("core-served")
+            slow_future = core.library.browse("s0:slow")  # core blocks in backend.library.browse().get()
+            time.sleep(0.05)
+            order.append("core-busy")
+            box2 = {}
+
+            def foreign_busy():
+                THREAD_COMPONENT[threading.get_ident()] = "GstThread"
+                try:
+                    func, args = WORLD.playbin.signals["about-to-finish"]
+                    order.append("callback-issued")
+                    t0 = time.monotonic()
+                    func(WORLD.playbin, *args)
+                    box2["served_when_caller_returned"] = len(atf["done_flags"]) - d2
+                    box2["caller_blocked_s"] = round(time.monotonic() - t0, 2)
+                    order.append("caller-returned")
+                except BaseException as e:  # noqa: BLE001
+                    errors.append(f"foreign-busy: {type(e).__name__}: {e}")
+                finally:
+                    THREAD_COMPONENT.pop(threading.get_ident(), None)
+
+            fb = threading.Thread(target=foreign_busy, name="verif-foreign-busy")
+            fb.start()
+            fb.join(case.get("hold", 1.3))
+            early = not fb.is_alive()
+            order.append("core-released")
+            SLOW_RELEASE.set()
+            fb.join(20)
+            slow_future.get(timeout=20)
+            atf["hook"] = orig_wrapper_hook
+            result["busy_core"] = {"caller_returned_before_release": early, "order": order,
+                                   "served_when_caller_returned": box2.get("served_when_caller_returned"),
+                                   "caller_blocked_s": box2.get("caller_blocked_s")}
             result["callback_threads"] = sorted(atf["threads"])
             result["callback_total"] = atf["calls"]
             # orderly stop, top down
